@@ -490,7 +490,14 @@ where
         let strategy = pvec(any::<u16>(), choices.clone());
         let rep = RefCell::new(&mut report);
         let target: RefCell<Option<String>> = RefCell::new(None);
+        let shrink_started: RefCell<Option<Instant>> = RefCell::new(None);
         let res = runner.run(&strategy, |v| {
+            // bound the time spent shrinking: afterwards every candidate "passes" unexamined
+            if let Some(t0) = *shrink_started.borrow() {
+                if t0.elapsed().as_secs() > 25 {
+                    return Ok(());
+                }
+            }
             let mut src = Src::new(&v);
             let case = gen(&mut src);
             crate::crumb::case(kind, &case);
@@ -512,6 +519,7 @@ where
                 None => Ok(()),
                 Some(f) => {
                     *target.borrow_mut() = Some(f.sig.clone());
+                    *shrink_started.borrow_mut() = Some(Instant::now());
                     Err(TestCaseError::fail(f.sig))
                 }
             }
